@@ -2,6 +2,7 @@ package main
 
 import (
 	"fmt"
+	"go/token"
 	"go/types"
 	"sort"
 	"strings"
@@ -131,6 +132,9 @@ func (w *World) verifyFunc(fn *ssa.Function, c *FuncContract) (res *FuncResult) 
 	for _, p := range fn.Params {
 		v := x.freshVal(p.Name(), p.Type())
 		x.refFacts(st, v)
+		if _, isFn := under(p.Type()).(*types.Signature); isFn {
+			v.X = &ParamFn{name: p.Name()}
+		}
 		args = append(args, v)
 	}
 	fr.args = args
@@ -158,6 +162,12 @@ func (w *World) verifyFunc(fn *ssa.Function, c *FuncContract) (res *FuncResult) 
 	}
 	fr.entry = st.clone()
 	out, vals := fr.run(st, args)
+	for _, rc := range c.Reach {
+		if rc.Clause.Label != "bound" {
+			vc.diag("%s: reach clause: no statement with text %q", name, rc.Stmt)
+			res.Err = "binding: reach statement not found: " + rc.Stmt
+		}
+	}
 	if out == nil {
 		return
 	}
@@ -171,6 +181,7 @@ func (w *World) verifyFunc(fn *ssa.Function, c *FuncContract) (res *FuncResult) 
 	if len(vals) == 1 {
 		eenv.vars["result"] = vals[0]
 	}
+	eenv.lookup = func(s *State, name string) (*Val, bool) { return fr.lookupLocal(s, name, token.NoPos) }
 	for _, e := range c.Ensures {
 		g, err := eenv.evalBool(e.Expr)
 		if err != nil {
